@@ -18,8 +18,7 @@ RULE = ("histories of advance(m) / take_step over every sampler class (m in {0, 
         "as the very first call); pools of 1..4 chains; timed runs with step cost 1e-6..1e3 virtual seconds and budgets 0.5 s..10 h; "
         "non-trivial = history with m=0, an m<100 and a non-multiple >=100 (counts); >=2 chains of different classes (pool); "
         "step cost > 1 s with a budget of > 20 steps (timed)")
-ASSUMPTIONS = ["PcaChain needs >= 2 parameters (PCA of a 1-vector is undefined)",
-               "the virtual clock replaces inference.mcmc.base.time and is advanced only by posterior evaluations"]
+ASSUMPTIONS = ["the virtual clock replaces inference.mcmc.base.time and is advanced only by posterior evaluations"]
 
 
 @st.composite
